@@ -237,6 +237,26 @@ CHECKS["C11"] = (
     "canonical-state deduplication + bounded-exhaustive program "
     "enumeration vs reference model")
 
+CHECKS["C09"] = (
+    "4/C09",
+    "Exhaustive on the real Multisphere solver: every subset of size 1-4 "
+    "of a 6-sphere alphabet (mixed size/index, one absorbing) on a fixed "
+    "3-D lattice x EVERY permutation of the list x both interaction "
+    "solvers x default/tightened options; 5- and 6-sphere clusters under "
+    "all adjacent transpositions, reversal and list rotations; rotation "
+    "about the optical axis (5 angles, off-axis pivot, polarization "
+    "rotated along) with the transverse field required to rotate as a "
+    "vector; one-sphere cluster vs Mie.  Default-theory rule over 27 "
+    "scatterer kinds incl. separations 30-1ulp / 30 / 30+1ulp (largest "
+    "radius), layered member, missing centre, T-matrix shapes, DDA-routed "
+    "shapes (missing-dependency error), non-scatterers; theory='auto' must "
+    "be bit-identical to naming the theory.",
+    "Trusted: nothing beyond numpy.  Order-independence tolerances reflect "
+    "the iterative solver's measured accuracy (floors in the evidence).  "
+    "adda is absent: DDA can only be observed refusing.",
+    "bounded-exhaustive input/permutation enumeration with metamorphic and "
+    "rule-table oracles")
+
 NOT_YET = {}
 
 
